@@ -131,7 +131,14 @@ def ev(e, env):
                 val = ev(v.value, env)
                 spec = ""
                 if v.format_spec is not None:
-                    spec = "".join(x.value for x in v.format_spec.values if isinstance(x, ast.Constant))
+                    # a specification may itself hold fields: f"{n:0{width}d}"
+                    for x in v.format_spec.values:
+                        if isinstance(x, ast.Constant):
+                            spec += x.value
+                        elif isinstance(x, ast.FormattedValue) and x.format_spec is None and x.conversion == -1:
+                            spec += str(ev(x.value, env))
+                        else:
+                            raise Unknown("format specification")
                 out += _fmt_spec(val, spec) if spec else str(val)
         return out
     if isinstance(e, (ast.Tuple, ast.List)):
